@@ -11,8 +11,19 @@ RULE = ("expression trees over the 18 binary operators, prefix ! - ~, indexing, 
 ASSUMPTIONS = ["leaves are small distinct integers/booleans so different groupings give different values or different error/non-error outcomes"]
 HARNESS_TIMEOUT = 30
 canon = c02.canon
-nontrivial = c02.nontrivial
-model_skip = c02.model_skip
+
+
+def nontrivial(c):
+    if c.line.startswith("pexpr "):
+        return c.impl.startswith("ok ") and c.model.startswith("ok ")
+    return c02.nontrivial(c)
+
+
+def model_skip(c):
+    # `pexpr` lines: the Pratt-parser model (lean/P2sh/Model/Parser.lean) must print what the real parser prints
+    if c.line.startswith("pexpr "):
+        return False
+    return c02.model_skip(c)
 
 # documented table, highest first (docs/language/expression-precedence.md)
 LEVELS = [["[]", ".", "()"], ["!u", "-u", "~u"], ["*", "/", "%"], ["+", "-"], ["<<", ">>"], ["&"], ["^"], ["|"], ["==", "!=", "<", ">", "<=", ">="], ["&&"], ["||"], ["..", "..="], ["|pat"], ["="]]
@@ -156,6 +167,124 @@ def trees(ctx):
     return out
 
 
+# ---- op `pexpr`: the Pratt-parser model against the real parser (tree of the expression alone, no program around it)
+PX_ATOMS = ["1", "2", "30", "x", "y", "a", "f", "true", "false", "9223372036854775807", "9223372036854775808", "007", "1x"]
+PX_TOKENS = PX_ATOMS + ["(", ")", "[", "]", ",", "=", "..", "..=", "!", "-", "~", ";"] + BINOPS
+
+
+def px_tree(rng, depth):
+    """trees with every form of the sub-grammar: n-ary calls, call/index chains, ranges, assignments with any target"""
+    if depth == 0 or rng.random() < 0.2:
+        return ("lit", rng.choice(PX_ATOMS[:9]))
+    r = rng.random()
+    if r < 0.45:
+        return ("bin", rng.choice(BINOPS), px_tree(rng, depth - 1), px_tree(rng, depth - 1))
+    if r < 0.6:
+        return ("un", rng.choice(PREFIX), px_tree(rng, depth - 1))
+    if r < 0.7:
+        return ("idx", px_tree(rng, depth - 1), px_tree(rng, depth - 1))
+    if r < 0.82:
+        return ("calln", px_tree(rng, depth - 1), [px_tree(rng, depth - 1) for _ in range(rng.choice([0, 1, 1, 2, 3]))])
+    if r < 0.88:
+        a, b = rng.choice([("1", "2"), ("x", "y"), ("1", "x"), ("2", "30")])
+        return ("rng", rng.choice(["..", "..="]), ("lit", a), ("lit", b))
+    return ("asg", px_target(rng, depth - 1, True), px_tree(rng, depth - 1))
+
+
+def px_target(rng, depth, ident_ok):
+    """what may stand before `=`: an identifier at the assignment level, or anything whose last token closes an index / call
+    (`-a[0] = 1`, `x + f(y) = 1` are accepted by the parser and group as `(-a[0]) = 1`, `(x + f(y)) = 1`)"""
+    r = rng.random()
+    if ident_ok and r < 0.4:
+        return ("lit", rng.choice(["x", "y", "a"]))
+    if depth <= 0 or r < 0.6:
+        return ("idx", ("lit", "a"), px_tree(rng, max(depth - 1, 0)))
+    if r < 0.7:
+        return ("calln", px_tree(rng, depth - 1), [px_tree(rng, depth - 1)])
+    if r < 0.85:
+        return ("un", rng.choice(PREFIX), px_target(rng, depth - 1, False))
+    return ("bin", rng.choice(BINOPS), px_tree(rng, depth - 1), px_target(rng, depth - 1, False))
+
+
+def px_lvl(t):
+    if t[0] == "calln":
+        return LEVEL["()"]
+    if t[0] == "rng":
+        return LEVEL[".."]
+    return lvl(t)
+
+
+def px_min(t):
+    """minimal parentheses by the documented table (an assignment target is never wrapped: `(a) = b` is rejected)"""
+    k = t[0]
+    w = lambda e, ok: px_min(e) if ok else f"({px_min(e)})"
+    if k == "lit":
+        return t[1]
+    if k == "bin":
+        p = px_lvl(t)
+        return f"{w(t[2], px_lvl(t[2]) >= p)} {t[1]} {w(t[3], px_lvl(t[3]) > p)}"
+    if k == "un":
+        return t[1] + w(t[2], px_lvl(t[2]) >= px_lvl(t))
+    if k == "idx":
+        return f"{w(t[1], px_lvl(t[1]) >= px_lvl(t))}[{px_min(t[2])}]"
+    if k == "calln":
+        return f"{w(t[1], px_lvl(t[1]) >= px_lvl(t))}({', '.join(px_min(a) for a in t[2])})"
+    if k == "rng":
+        return f"{px_min(t[2])}{t[1]}{px_min(t[3])}"
+    if k == "asg":
+        return f"{w(t[1], px_lvl(t[1]) > px_lvl(t))} = {px_min(t[2])}"
+
+
+def px_full(t):
+    """every operand wrapped, except assignment targets and range operands (wrapping those is rejected by the parser)"""
+    k = t[0]
+    w = lambda e: px_full(e) if e[0] == "lit" else f"({px_full(e)})"
+    if k == "lit":
+        return t[1]
+    if k == "bin":
+        return f"{w(t[2])} {t[1]} {w(t[3])}"
+    if k == "un":
+        return t[1] + w(t[2])
+    if k == "idx":
+        return f"{w(t[1])}[{w(t[2])}]"
+    if k == "calln":
+        return f"{w(t[1])}({', '.join(w(a) for a in t[2])})"
+    if k == "rng":
+        return f"{px_full(t[2])}{t[1]}{px_full(t[3])}"
+    if k == "asg":
+        return f"{px_min(t[1]) if t[1][0] != 'lit' else t[1][1]} = {w(t[2])}"
+
+
+PX_FIXED = ["1 + 2 * 3", "(1 + 2) * 3", "a = b = c", "-a[0]", "!f(x)", "1 - 2 - 3", "1 - (2 - 3)", "a < b == c", "a + b = c", "(a) = b", "1 = 2", "-a = 3", "-a[0] = 3",
+            "!f(x) = 3", "a + f(x) = 3", "a + (b) = c", "f()", "f(1, 2, 3)", "f(1)(2)[3](4)", "f(x = 1, y)", "a[x = 1]", "1..2", "x..=y", "1..2..3", "1 + 2..3", "a = 1..2",
+            "(1..2) + 3", "-(1..2)", "true && !false", "~-!x", "- - 1", "(((1)))", "()", "(1", "1)", "f(1,)", "f(,1)", "a[1", "a[]", "1 +", "* 2", "a = ", "= a", "x = y = 7;",
+            "9223372036854775807 + 1", "9223372036854775808", "1x + 2", "1 2", "a b", "x: 1", "let x = 1", "", ";", "a == b == c", "a && b || c && d", "a | b ^ c & d << e + f * g",
+            "a * b + c << d & e ^ f | g", "f(a)[b](c) = d", "a[0][1] = b = c + 1", "(a = b) + 1", "1 + (a = b)", "a = (b = c)", "(a = b) = c", "f(a = b)", "-(a = b)", "(-a)[0]", "(a + b)(c)"]
+
+
+def pexpr_cases(ctx, ts):
+    rng = ctx.rng
+    srcs, asts, shapes = [], [], []
+    fixed = [x for x in ts if x[0] != "random"]
+    rnd = [x for x in ts if x[0] == "random"]
+    for shape, t in fixed + rnd[:ctx.scale(400, 20000)]:
+        srcs += [mn(t), full(t)]
+        asts += [full(t), full(t)]
+        shapes += ["px-" + shape + "-min", "px-" + shape + "-full"]
+    for _ in range(ctx.scale(1500, 100000)):
+        t = px_tree(rng, rng.choice([2, 3, 3, 4, 5]))
+        srcs += [px_min(t), px_full(t)]
+        asts += [px_full(t), px_full(t)]
+        shapes += ["px-tree-min", "px-tree-full"]
+    for s in PX_FIXED:
+        srcs.append(s); asts.append(s); shapes.append("px-fixed")
+    for _ in range(ctx.scale(1500, 100000)):
+        s = " ".join(rng.choice(PX_TOKENS) for _ in range(rng.randint(1, 9)))
+        srcs.append(s); asts.append(s); shapes.append("px-soup")
+    lines = lang_lines(ctx, srcs, op="pexpr", ast_sources=asts)
+    return [Case(l, (sh,), extra={"shape": sh, "src": s, "ast_of": a}) for l, sh, s, a in zip(lines, shapes, srcs, asts)]
+
+
 def cases(ctx):
     ts = trees(ctx)
     mins = [program(mn(t)) for _, t in ts]
@@ -170,7 +299,7 @@ def cases(ctx):
     out = []
     for i, (l, (shape, t)) in enumerate(zip(lines, ts)):
         out.append(Case(l, (shape,), extra={"shape": shape, "min": mn(t), "full": full(t), "src": mins[i], "ast_same": same[i] if same else None}))
-    return out
+    return out + pexpr_cases(ctx, ts)
 
 
 def judge(c):
